@@ -595,7 +595,7 @@ func c17RoundTripSpec(ctx context.Context, r *kit.Result, rng *kit.Rand, id stri
 						pt := rng.Bytes(size)
 						caseKey := fmt.Sprintf("%s|v%d|%d|c%d|a%d", s.name(), reqVer, size, ci, len(aad))
 						r.Eval(1)
-						r.Nontrivial(caseKey)
+						r.Nontrivial(fmt.Sprintf("%s|%x|%x|%x", caseKey, sha256.Sum256(pt), kctx, aad))
 						ct, err := p.EncryptWithFactory(reqVer, kctx, nil, c17b64(pt), c17factories(aad)...)
 						if err != nil {
 							r.Violate("C17-encrypt-refused", id, fmt.Sprintf("%s: encrypt of %d bytes with key version %d (latest %d, no minimum set) was refused: %v", caseKey, size, reqVer, nver, err), nil)
